@@ -77,6 +77,18 @@ Definition mon_rollback_clean (pre post : State) : bool :=
 Definition mon_rollback_refund (pre post : State) : bool :=
   balance pre (macc ORDER) - balance post (macc ORDER) =?
   fold_right (fun kv acc => o_amount kv.2 + acc) 0 (rolled_back_orders pre post).
+(* C05: the refund of a rolled-back order reaches the account that paid for it (the payment address of the order's
+   payment DID, else of its owner): that account's balance grows by at least the amounts of its rolled-back orders *)
+Definition order_payer (s : State) (o : Order) : option string :=
+  pay_addr s (if String.eqb (o_paydid o) "" then o_owner o else o_paydid o).
+Definition mon_refund_to_payer (pre post : State) : bool :=
+  let rolled := rolled_back_orders pre post in
+  forallb (fun kv =>
+     match order_payer pre kv.2 with
+     | Some a => fold_right (fun kv' acc => match order_payer pre kv'.2 with
+                                           | Some a' => if String.eqb a a' then o_amount kv'.2 + acc else acc
+                                           | None => acc end) 0 rolled <=? balance post a - balance pre a
+     | None => true end) rolled.
 Definition rollback_monitors (money : bool) (pre post : State) : list (string * bool) :=
   [ ("rollback.clean", mon_rollback_clean pre post);
     ("rollback.refund_exact", negb money || mon_rollback_refund pre post) ].
@@ -132,6 +144,7 @@ Definition op_monitors (cx : Ctx) (pre : State) (op : Op) (accepted : bool) (pos
     ("frame.supply", match op with OBeginBlock => supply pre <=? supply post | _ => supply pre =? supply post end);
     ("rollback.clean", mon_rollback_clean pre post);
     ("rollback.refund_exact", match op with OCancel _ _ _ | OEndBlock _ => mon_rollback_refund pre post | _ => true end);
+    ("rollback.refund_to_payer", match op with OCancel _ _ _ | OEndBlock _ => mon_refund_to_payer pre post | _ => true end);
     ("mint.within_age_cap", match op with OBeginBlock => mon_mint_cap 1 pre post | _ => true end);
     (* defect D13: a claim repays recorded debt out of storage income that never reaches the node escrow *)
     ("solv.debt_repaid_from_income", match op with
